@@ -3,7 +3,7 @@ import json, os
 
 CHECKS = {
  "C01": ("model_checking", "explicit-state model checking (product BFS of emitted design x reference coroutine machine; bounded-exhaustive program enumeration)",
-         "explicit-state product BFS of the emitted VHDL (under vsim) against a reference coroutine machine over all input valuations per clock, exhausting the reachable state space of every program of a bounded grammar",
+         "explicit-state product BFS of the emitted VHDL (under vsim) against a reference coroutine machine over all input valuations per clock, exhausting the reachable state space of every program of a bounded grammar (plus loop-first programs, match renderings, factory-made waiters and an idle-reset stratum)",
          "trusted base: vsim (own simulator) and the reference machine of DESIGN.md Appendix B; bounded program size"),
  "C06": ("exploration", "bounded-exhaustive enumeration of name assignments / design shapes, each analysed by an independent VHDL front end",
          "every upstream corpus design, every assignment of collision-alphabet names to <=2 (thorough <=3) declaration slots, a generated select_with family (selector type x coverage x default x context) and a set of structural variants (extern libraries, architecture names, duplicate choices, array selectors, integer-to-view casts, ...) are compiled and the emitted text is checked by vfront's LRM rule set",
@@ -12,16 +12,16 @@ CHECKS = {
          "all placements of up to 2 (thorough 3) accesses to one object over 11 site kinds (concurrent, sequential, always block/expression, raw context incl. the else branch of its edge test, nested block, instance outputs) x 6 access kinds, also with identically named contexts; source-level expectation + driver table of the emitted architecture",
          "driver table computed by vfront; weakest reading for disjoint slices driven from different contexts (no rejection demanded)"),
  "C03": ("model_checking", "explicit-state model checking (product BFS of emitted design x reference interpreter of the body; bounded-exhaustive body enumeration)",
-         "explicit-state product BFS of the emitted VHDL against a direct interpreter of the abstract sequential body over all 16 input valuations per clock; every body of a bounded grammar; continuous outputs compared before and registers after every clock",
+         "explicit-state product BFS of the emitted VHDL against a direct interpreter of the abstract sequential body over all 16 input valuations per clock; every body of a bounded grammar incl. 22 fixed fragments (helpers with nested returns, loops, local signals, whole-record push, merged constants); continuous outputs compared before and registers after every clock",
          "trusted base: vsim and the reference interpreter written from the property statement (verif/gen/seqbody.py)"),
  "C04": ("model_checking", "explicit-state model checking over (state, reset) pairs: product BFS with reset levels and asynchronous reset pulses as environment events",
-         "C01/C03 program families x 8 reset flavours (sync/async x polarity, step_cond, with_params) x objects with/without default/noreset x on_reset; BFS visits every reachable (state, reset) pair and compares with a reference that models reset as re-initialisation; plus derived resets (or_reset/and_reset x polarity x async override) and clock/reset taken from elements of one vector, explored over all single-input changes and clock edges",
+         "C01/C03 program families x 10 reset flavours (sync/async x polarity, step_cond, with_params, contexts without pushed signals) x objects with/without default/noreset x on_reset; BFS visits every reachable (state, reset) pair and compares with a reference that models reset as re-initialisation; plus derived resets (or_reset/and_reset x polarity x async override) and clock/reset taken from elements of one vector, explored over all single-input changes and clock edges; reset-equivalence product (reset-then-run vs power-up-then-run) for Executor processes and nested records of signals defaulted from Null/Full/kwargs",
          "inputs incl. reset are defined from time 0; single clock; vsim trusted"),
  "C05": ("exploration", "bounded-exhaustive matrix of (source type, target type, assignment form) x all source values, simulated",
-         "all ordered type pairs over Bit/bool/BitVector/Unsigned/Signed[1..3(5)] + run-time Integer + literals x 30 assignment forms (signal/variable/push/slice/element/port/view/return and branch merges, Null merges, expression-result sources, instances inside contexts); must-reject table from the statement; every accepted design simulated for every source value; per-form vacuity guard",
+         "all ordered type pairs over Bit/bool/BitVector/Unsigned/Signed[1..4(6)] + run-time Integer + int/bit-string literals of every length x 40 assignment forms (incl. select_with without default) (signal/variable/push/slice/element/port/view/return and branch merges, Null merges, expression-result sources, instances inside contexts); must-reject table from the statement; every accepted design simulated for every source value; per-form vacuity guard",
          "vector->bool (truth test) and int->Bit/BitVector are left open (not covered by the statement)"),
  "C08": ("exploration", "bounded-exhaustive control-flow shapes x def/use placements; dynamic POISON check under exhaustive input enumeration",
-         "all programs of a control-flow grammar x definition/use placements in clocked/clockless sequential contexts, helper returns and coroutine states; reference interpreter decides must-reject; accepted designs run in vsim POISON mode under every input valuation / reachable state",
+         "all programs of a control-flow grammar x definition/use placements in clocked/clockless sequential contexts, helper returns (incl. boolean helpers with several return paths) and coroutine states; reference interpreter decides must-reject; accepted designs run in vsim POISON mode under every input valuation / reachable state",
          "POISON: every process variable declared without initial value is a compiler intermediate"),
  "C12": ("model_checking", "explicit-state equivalence checking (product BFS of hierarchical design x flat design) + structural comparison of the emitted text",
          "instantiation trees (4 leaf templates x fixed topologies with slice/bit/typed-view/expression actuals on inputs and outputs, nesting, instances inside contexts, OpenEntity/ConnectedEntity, plus 940 generated two-instance sequences) rendered hierarchically and flat; BFS over the product under all inputs; port lists, port maps, entity order, emitted-entity set, to_dir files compared with the source",
